@@ -1214,10 +1214,38 @@ draw_row_indexed(vbi_page * pg, vbi_char * ac, uint8_t * canvas, uint8_t * pen,
         int unicode;
 
         for (column = 0; column < pg->columns ; canvas += cw, column++, ac++) {
+				vbi_char ac1;
 
 				if (ac->size == VBI_OVER_TOP
-				    || ac->size == VBI_OVER_BOTTOM)
+				    || ac->size == VBI_OVER_BOTTOM) {
+					/* Already drawn as right half of the
+					   character to the left. Without such
+					   a neighbour draw a blank, or the cell
+					   keeps the malloc()ed garbage. */
+					if (0 == column
+					    || !(VBI_DOUBLE_WIDTH == ac[-1].size
+						 || VBI_DOUBLE_SIZE == ac[-1].size
+						 || VBI_DOUBLE_SIZE2 == ac[-1].size))
+						draw_blank(sizeof(*canvas), canvas,
+							   rowstride, ac->background,
+							   cw, ch);
 					continue;
+				}
+
+				/* The right half of a double width character in
+				   the last column would be drawn into the next
+				   pixel row, behind the image in the last row. */
+				if (column == pg->columns - 1
+				    && (VBI_DOUBLE_WIDTH == ac->size
+					|| VBI_DOUBLE_SIZE == ac->size
+					|| VBI_DOUBLE_SIZE2 == ac->size)) {
+					ac1 = *ac;
+					ac1.size = (VBI_DOUBLE_WIDTH == ac->size) ?
+						VBI_NORMAL_SIZE :
+						(VBI_DOUBLE_SIZE == ac->size) ?
+						VBI_DOUBLE_HEIGHT : VBI_DOUBLE_HEIGHT2;
+					ac = &ac1;
+				}
 
 				unicode = (ac->conceal & conceal) ? 0x0020u : ac->unicode;
 
